@@ -7,7 +7,7 @@ from mc.engine import Outcome, sha
 ID = 'C15'
 ENGINE = 'E1 full product (writer level) + size ladder end-to-end'
 RULE = ("writer level: every vrl of the tier x every body length 1..60 and k*cap+-14 x {EFLR, IFLR}, write must "
-        "succeed and pass the C01/C02 oracles; end-to-end: the minimal specification at every vrl of the tier, and a "
+        "succeed and pass the C01/C02 oracles; end-to-end: the minimal specification at every vrl of the tier (record length given as a keyword, through a ready-made label, or set on the label afterwards), and a "
         "size ladder (frame row width 1..24 bytes, frame/channel/no-format name lengths 1..255, payloads 0..30) at "
         "small and default record lengths; non-trivial = the write was attempted on a valid specification")
 ASSUMPTIONS = ["strict reader mc/rp66.py", "reference model mc/model.py"]
